@@ -7,6 +7,7 @@ from cxx2c import Unsupported
 
 import residuals
 import scaling
+import newton
 
 # (n variables, p equalities, m inequalities): quick tier = the shapes with every constraint kind present / absent and the largest one
 QUICK_SHAPES = [(1, 0, 1), (2, 1, 2), (3, 2, 2), (2, 0, 0), (3, 2, 0), (2, 1, 1)]
@@ -38,6 +39,7 @@ def build(tier):
             jobs.append(guarded(lambda a=(n, p, m, hasQ): residuals.kkt_vcs(*a, info), f'solver_state_t::update {(n, p, m, hasQ)}'))
         jobs.append(guarded(lambda a=(n, p, m): residuals.residual_vcs(*a, info), f'solver_state_t::residual {(n, p, m)}'))
     jobs += [guarded(j, what) for j, what in scaling.jobs(tier, shapes, info)]
+    jobs += [guarded(j, what) for j, what in newton.jobs(tier, shapes, info)]
     vcs = []
     for r in [j() for j in jobs]:
         vcs += r
